@@ -11,6 +11,8 @@ Tokens == {Lit("a"), Lit("A"), EscLit("a"), EscLit("-"), Lit("."), Lit("-"), Lit
            [t |-> "any1"], [t |-> "star"], [t |-> "dstar"],
            [t |-> "class", s |-> {"a", "."}, neg |-> FALSE], [t |-> "class", s |-> {"a"}, neg |-> TRUE],
            [t |-> "alt", alts |-> <<L1("a"), <<Lit("A"), Lit(".")>>>>],
+           [t |-> "alt", alts |-> <<<<>>, <<Lit("."), Lit("a")>>>>],             \* {,.a}: an empty alternative
+           [t |-> "ext", k |-> "@", alts |-> <<<<>>, L1("a")>>],                   \* @(|a)
            [t |-> "ext", k |-> "@", alts |-> <<L1("a"), L1(".")>>], [t |-> "ext", k |-> "?", alts |-> <<L1("a")>>],
            [t |-> "ext", k |-> "+", alts |-> <<L1("a")>>], [t |-> "ext", k |-> "*", alts |-> <<L1("a"), L1("-")>>]}
 U == StringsUpTo(Alphabet, MaxLen)
